@@ -172,6 +172,13 @@ func (t *T) Note(key, val string)       { t.Notes[key] = val }
 func (t *T) MapOrderNondet(on bool)     {}
 func (t *T) Symbolic() bool             { return false }
 
+// Failed reports whether an assertion has failed so far; ResetLog forgets the
+// observations of a native retry (map-iteration order cannot be forced
+// natively, so counterexamples that depend on it are retried). Under the
+// engine Failed is false and ResetLog does nothing.
+func (t *T) Failed() bool { return len(t.Fails) > 0 }
+func (t *T) ResetLog()    { t.Log = nil; t.occ = map[string]int{} }
+
 func (t *T) Setenv(k, v string) { os.Setenv(k, v) }
 
 func fmtVal(v interface{}) string {
